@@ -15,10 +15,13 @@ def table_for(prog, A, fids, effect_pred, write_pred=None):
             continue
         S = A.summary(fid)
         rows = []
+        wseen = set()
         for ev in S.events:
             if ev[0] == "write" and write_pred is not None and ev[3] == fid:
                 eff = write_pred(b, S, ev)
-                if eff is not None:
+                # one assignment statement is one row, however many access paths denote its destination
+                if eff is not None and (eff, ev[5], ev[4]) not in wseen:
+                    wseen.add((eff, ev[5], ev[4]))
                     rows.append([eff, sorted(guards.guard_set(b, S, ev[5]))])
                 continue
             if ev[0] != "call" or ev[3] != fid:
@@ -72,6 +75,8 @@ def compare(chk, rule, section, cur, what, floor, row_filter=None, fn_filter=Non
         return
     def effkind(eff):
         # effect without the parameter-relative operand descriptions (they change when code moves into a helper)
+        if eff.startswith("write ") and " = " in eff:
+            return eff.split(" = ")[0]          # the value description is relative to the function's parameters
         return re.sub(r"\b(arg\d+\*?|local:[^,)]*|var)([.\w|\[\]]*)", "_", eff)
     diffs = {}
     for fn in sorted(set(cur) | set(ora)):
@@ -107,17 +112,22 @@ def compare(chk, rule, section, cur, what, floor, row_filter=None, fn_filter=Non
     # relocation: rows that left a reviewed function and reappear, with the same effect, in a function the reviewed table does
     # not know (a helper extracted from it) are the same decision made in another place - not a difference
     newfns = [fn for fn in diffs if fn not in ora]
+    absorbed = set()
     for fn, (missing, extra) in diffs.items():
         if fn in newfns:
             continue
         for r in list(missing):
             eff = json.loads(r)[0]
             for nf in newfns:
+                # a helper is typically called from several places: one of its rows can stand for several rows that left
                 hit = next((x for x in diffs[nf][1] if effkind(json.loads(x)[0]) == effkind(eff)), None)
                 if hit is not None:
-                    diffs[nf][1].remove(hit)
+                    absorbed.add((nf, hit))
                     missing.remove(r)
                     break
+    for nf, hit in absorbed:
+        if hit in diffs[nf][1]:
+            diffs[nf][1].remove(hit)
     for fn in sorted(diffs):
         missing, extra = diffs[fn]
         body = mir.prog().bodies.get(fn) or next((x for x in mir.prog().bodies.values() if mir.strip_generics(x.id) == fn), None)
